@@ -31,7 +31,10 @@ RULE = ("cases = (a) pipelines: scanner inputs (direct found_host calls, cache-f
         "a scratch hosts file with foreign lines, among them the marked lines of other sshuttle instances whose "
         "ports are digit-prefixes / -suffixes / -infixes of this session's port (and vice versa); "
         "(b) arbitrary host-list payloads handed to the client; (c) arbitrary scanner streams handed to the "
-        "server under arbitrary chunkings (including over-long lines). Every case runs at a verbosity level from the rotation [0,0,3,0,2,0,13,1] shifted by the seed "
+        "server under arbitrary chunkings (including over-long lines); (d) the pre-existing hosts file in every "
+        "encoding (ASCII, UTF-8, Latin-1 bytes, stray continuation bytes, NUL, UTF-16) x the helper's locale (UTF-8, "
+        "C/ASCII), compared byte for byte; (e) scale: thousands of long records (hundreds of KiB) pending at once on "
+        "the hostwatch socket, recv honouring the size asked for. Every case runs at a verbosity level from the rotation [0,0,3,0,2,0,13,1] shifted by the seed "
         "(13 = level 3 with a failing stderr), set around every call into the real code; the level is part of the replay. "
         "Non-trivial = at least one record was "
         "emitted / skipped / delivered; distinct = distinct canonical input")
@@ -152,14 +155,15 @@ class Scanner:
 
         def wrapper(name, ip):
             top = sc.depth == 0
-            pos = len(sc.raw.getvalue())
+            pos = sc.raw.tell()
             sc.depth += 1
             try:
                 return orig(name, ip)
             finally:
                 sc.depth -= 1
                 if top:
-                    sc.calls.append((name, ip, sc.raw.getvalue()[pos:]))
+                    with sc.raw.getbuffer() as view:
+                        sc.calls.append((name, ip, bytes(view[pos:])))
 
         def fake_open(path, *a, **kw):
             if path in sc.files:
@@ -296,8 +300,9 @@ class FakeSock:
         return 1003
 
     def recv(self, n):
-        assert len(self.next) <= n
-        d, self.next = self.next, b''
+        """Like a socket: at most the `n` bytes asked for of what is pending."""
+        d, self.next = self.next[:n], self.next[n:]
+        self.last = d
         return d
 
 
@@ -349,7 +354,8 @@ class Server:
 
     def read(self, chunk):
         """One hostwatch_ready call. Returns (tag, leftover, payload, wire bytes)."""
-        self.sock.next = chunk
+        if chunk is not None:
+            self.sock.next = chunk
         w0 = len(self.wfile.written)
         try:
             with at_level():
@@ -484,8 +490,14 @@ def frame(payload, cmd=0x4209):
 PLAN = b'ROUTES\n2,24,0,1.2.3.0,0,0\nNSLIST\nPORTS %d,%d,0,0\nGO 0 - - 0x01 1\n'
 
 
-def run_helper(host_bytes, p6, p4, hosts_content, tmpdir):
-    """Real firewall.main + real rewrite_etc_hosts on a scratch file. Returns (end tag, snapshots)."""
+def as_bytes(content):
+    return content if isinstance(content, bytes) else content.encode('utf-8')
+
+
+def run_helper(host_bytes, p6, p4, hosts_content, tmpdir, locale_enc='utf-8'):
+    """Real firewall.main + real rewrite_etc_hosts on a scratch file whose bytes are `hosts_content`, with the
+    helper's locale encoding `locale_enc` (what open() without an encoding argument picks).  Returns
+    (end tag, snapshots after every successful rewrite, final bytes, bytes after every failed rewrite)."""
     import sshuttle.firewall as firewall
     import sshuttle.helpers as helpers
     from sshuttle.methods import BaseMethod
@@ -493,14 +505,25 @@ def run_helper(host_bytes, p6, p4, hosts_content, tmpdir):
     for fn in os.listdir(tmpdir):
         if fn.startswith('hosts'):
             os.unlink(os.path.join(tmpdir, fn))
-    with open(path, 'w') as f:
-        f.write(hosts_content)
+    with open(path, 'wb') as f:
+        f.write(as_bytes(hosts_content))
     snaps = []
+    failed = []
     orig = firewall.rewrite_etc_hosts
 
+    def locale_open(file, mode='r', buffering=-1, encoding=None, *a, **kw):
+        if 'b' not in mode and encoding is None:
+            encoding = locale_enc
+        return open(file, mode, buffering, encoding, *a, **kw)
+
     def wrapped(hostmap, port):
-        orig(hostmap, port)
-        with open(path) as f:
+        try:
+            orig(hostmap, port)
+        except Exception:
+            with open(path, 'rb') as f:
+                failed.append(f.read())
+            raise
+        with open(path, 'rb') as f:
             snaps.append((dict(hostmap), port, f.read()))
 
     class Out:
@@ -525,6 +548,7 @@ def run_helper(host_bytes, p6, p4, hosts_content, tmpdir):
     firewall.setup_daemon = lambda: (io.BytesIO(PLAN % (p6, p4) + host_bytes), Out())
     firewall.get_method = lambda name: Method('rec')
     firewall.rewrite_etc_hosts = wrapped
+    firewall.open = locale_open
     firewall.HOSTSFILE = path
     firewall.flush_systemd_dns_cache = lambda: None
     helpers.verbose = LEVEL[0] % 10
@@ -544,14 +568,27 @@ def run_helper(host_bytes, p6, p4, hosts_content, tmpdir):
     finally:
         (firewall.setup_daemon, firewall.get_method, firewall.rewrite_etc_hosts, firewall.HOSTSFILE,
          firewall.flush_systemd_dns_cache, firewall.sshuttle_pid, helpers.logprefix, sys.stderr, helpers.verbose) = saved
-    with open(path) as f:
+        try:
+            del firewall.open
+        except AttributeError:
+            pass
+    with open(path, 'rb') as f:
         final = f.read()
+    run_helper.failed = failed
     return end, snaps, final
 
 
 def marked_block(content, port):
-    mark = '# sshuttle-firewall-%d AUTOCREATED' % port
-    return ''.join(l + '\n' for l in content.split('\n') if mark in l)
+    mark = b'# sshuttle-firewall-%d AUTOCREATED' % port
+    return b''.join(l + b'\n' for l in content.split(b'\n') if mark in l)
+
+
+def decodable(content, enc):
+    try:
+        as_bytes(content).decode(enc)
+        return True
+    except UnicodeDecodeError:
+        return False
 
 
 # ------------------------------------------------------------------ oracle pieces (the property, no model)
@@ -570,25 +607,42 @@ def line_shape_ok(line, port):
     return bool(m and QUAD_RE.match(m.group(1)) and NAME_RE.match(m.group(2)))
 
 
-def check_hosts_file(ctx, case, original, snaps, final, port):
-    orig_lines = original.rstrip().split('\n')
-    mark = '# sshuttle-firewall-%d AUTOCREATED' % port      # this instance's lines, and only these
+def check_hosts_file(ctx, case, original, snaps, final, port, failed=()):
+    """Byte level: every line that is not this instance's is untouched after every rewrite (successful or
+    not) and after the restore, whatever the encoding of the file and the locale of the helper."""
+    original = as_bytes(original)
+    orig_lines = original.rstrip().split(b'\n')
+    mark = b'# sshuttle-firewall-%d AUTOCREATED' % port      # this instance's lines, and only these
     kept = [l for l in orig_lines if mark not in l]
+
+    def show(ls):
+        return [l.decode('latin-1') for l in ls]
+    state = original
+    for content in failed:
+        if content != original and [l for l in content.rstrip(b'\n').split(b'\n') if mark not in l] != kept:
+            ctx.violation('C19:hosts-file:foreign-line-changed', case=case, expected=show(kept),
+                          observed=show(content.split(b'\n')), note='a rewrite that raised had already changed the file')
+            return
     for hostmap, p, content in snaps:
-        lines = content.rstrip('\n').split('\n')
+        state = content
+        lines = content.rstrip(b'\n').split(b'\n')
         others = [l for l in lines if mark not in l]
         added = [l for l in lines if mark in l]
         if others != kept:
-            ctx.violation('C19:hosts-file:foreign-line-changed', case=case, expected=kept, observed=others)
+            ctx.violation('C19:hosts-file:foreign-line-changed', case=case, expected=show(kept), observed=show(others))
             return
         for l in added:
-            if not line_shape_ok(l, port):
+            if not line_shape_ok(l.decode('latin-1'), port):
                 ctx.violation('C19:hosts-file:malformed-line-added', case=case,
-                              expected='address(dotted quad) name([-A-Za-z0-9_.]+) marker', observed=l,
+                              expected='address(dotted quad) name([-A-Za-z0-9_.]+) marker', observed=l.decode('latin-1'),
                               note='a line added to the hosts file does not have the required shape')
                 return
-    if snaps and [l for l in final.rstrip('\n').split('\n')] != kept:
-        ctx.violation('C19:hosts-file:not-restored', case=case, expected=kept, observed=final)
+    if snaps:
+        if final.rstrip(b'\n').split(b'\n') != kept:
+            ctx.violation('C19:hosts-file:not-restored', case=case, expected=show(kept), observed=show(final.split(b'\n')))
+    elif final != original:
+        ctx.violation('C19:hosts-file:foreign-line-changed', case=case, expected=show(orig_lines),
+                      observed=show(final.split(b'\n')), note='no update succeeded, yet the file is not byte-identical')
 
 
 # ------------------------------------------------------------------ generators
@@ -777,6 +831,17 @@ def hosts_with_instances(rng, port, n=None):
     return '\n'.join(lines) + '\n'
 
 
+ENCODED_HOSTS = [     # the administrator's own file, as bytes
+    b'127.0.0.1 localhost\n# plain ASCII\n10.0.0.9 printer\n',
+    '127.0.0.1 localhost\n# B\u00fcro-Drucker (UTF-8)\n10.0.0.9 drucker\n'.encode('utf-8'),
+    '127.0.0.1 localhost\n# B\u00fcro-Drucker (Latin-1)\n10.0.0.9 drucker\n'.encode('latin-1'),
+    b'127.0.0.1 localhost\n10.0.0.9 pr\x80nter   # stray continuation byte\n\xbf\n',
+    b'127.0.0.1 localhost\n# NUL \x00 inside\n10.0.0.9 printer\n',
+    '10.0.0.9 drucker  # \u65e5\u672c \U0001f5a8\n1.1.1.1 stale   # sshuttle-firewall-12300 AUTOCREATED\n'.encode('utf-8'),
+    b'\xff\xfe1\x000\x00.\x000\x00\n',
+]
+LOCALES = ['utf-8', 'ascii']      # what open() without an encoding picks: UTF-8 locale, C/POSIX locale
+
 PORT_PAIRS = [[0, 12300], [12299, 12300], [65535, 0], [1230, 0], [0, 1230], [123, 1230], [2300, 0], [0, 230], [1, 0], [0, 6553]]
 
 
@@ -888,12 +953,20 @@ def pipeline_case(ctx, case, tmpdir):
     # 4. helper + scratch hosts file
     p6, p4 = case['ports']
     port = p6 or p4
-    end, snaps, final = run_helper(host_bytes, p6, p4, case['hosts_file'], tmpdir)
+    enc = case.setdefault('locale', 'utf-8')
+    end, snaps, final = run_helper(host_bytes, p6, p4, case['hosts_file'], tmpdir, enc)
+    failed = run_helper.failed
     if snaps and snaps[-1][0] == {}:
         cleanup = snaps.pop()   # noqa
+    if not decodable(case['hosts_file'], enc):
+        # the helper cannot read the existing file in its locale: whatever it does (the code as it is raises
+        # before touching the file), every line that is not ours must stay byte-identical
+        ctx.hist('helper:undecodable-hosts-file:' + end)
+        check_hosts_file(ctx, case, case['hosts_file'], snaps, final, port, failed)
+        log.nontrivial = bool(sc.calls)
+        return log
     log.ins.append('hostsfile %d %s' % (port, hexb(host_bytes)))
-    log.outs.append('blocks=%s end=%s' % (''.join(hexb(marked_block(c, port).encode('latin-1', 'replace')) + '|'
-                                                   for _m, _p, c in snaps) + '.', end))
+    log.outs.append('blocks=%s end=%s' % (''.join(hexb(marked_block(c, port)) + '|' for _m, _p, c in snaps) + '.', end))
     ctx.hist('helper:' + end)
     if end != 'eof':
         ctx.violation('C19:helper:session-ended-by-host-line', case=case, expected='eof', observed=end,
@@ -912,16 +985,16 @@ def pipeline_case(ctx, case, tmpdir):
                       note="after a history of records the hosts file must hold, for every name, the last address "
                            "the scanner announced for it")
         return log
-    check_hosts_file(ctx, case, case['hosts_file'], snaps, final, port)
+    check_hosts_file(ctx, case, case['hosts_file'], snaps, final, port, failed)
     log.nontrivial = bool(sc.calls)
     return log
 
 
-def payload_case(ctx, payload, tmpdir, ports=(0, 12300), hosts_file=HOSTS_FILES[0], level=None):
+def payload_case(ctx, payload, tmpdir, ports=(0, 12300), hosts_file=HOSTS_FILES[0], level=None, locale='utf-8'):
     """An arbitrary HOST_LIST payload handed to the real client, then on to the real helper."""
     log = Log('payload')
     case = dict(kind='payload', payload=hexb(payload), ports=list(ports), hosts_file=hosts_file,
-                level=next_level(ctx, level))
+                level=next_level(ctx, level), locale=locale)
     cl = Client()
     tag, written = cl.deliver(frame(payload))
     log.ins.append('hostlist ' + hexb(payload))
@@ -934,12 +1007,16 @@ def payload_case(ctx, payload, tmpdir, ports=(0, 12300), hosts_file=HOSTS_FILES[
                       observed=dict(exception=tag), note='a host-list payload a server could send')
         return log
     port = ports[0] or ports[1]
-    end, snaps, final = run_helper(written, ports[0], ports[1], hosts_file, tmpdir)
+    end, snaps, final = run_helper(written, ports[0], ports[1], hosts_file, tmpdir, locale)
+    failed = run_helper.failed
     if snaps and snaps[-1][0] == {}:
         snaps.pop()
+    if not decodable(hosts_file, locale):
+        ctx.hist('helper:undecodable-hosts-file:' + end)
+        check_hosts_file(ctx, case, hosts_file, snaps, final, port, failed)
+        return log
     log.ins.append('hostsfile %d %s' % (port, hexb(written)))
-    log.outs.append('blocks=%s end=%s' % (''.join(hexb(marked_block(c, port).encode('latin-1', 'replace')) + '|'
-                                                   for _m, _p, c in snaps) + '.', end))
+    log.outs.append('blocks=%s end=%s' % (''.join(hexb(marked_block(c, port)) + '|' for _m, _p, c in snaps) + '.', end))
     if end != 'eof':
         ctx.violation('C19:helper:session-ended-by-host-line', case=case, expected='eof', observed=end)
         return log
@@ -953,7 +1030,7 @@ def payload_case(ctx, payload, tmpdir, ports=(0, 12300), hosts_file=HOSTS_FILES[
         ctx.violation('C19:hosts-file:not-last-announced-value', case=case, expected=last, observed=have,
                       note='valid entries of a host list: the last address announced per name must be in force')
         return log
-    check_hosts_file(ctx, case, hosts_file, snaps, final, port)
+    check_hosts_file(ctx, case, hosts_file, snaps, final, port, failed)
     return log
 
 
@@ -978,6 +1055,77 @@ def rand_payload(rng):
     sep = rng.choice(['\n', '\n', ' ', '\r\n', '\t', '\n\n'])
     s = sep.join(parts) + rng.choice(['\n', '', ' \n'])
     return s.encode('utf-8', 'surrogatepass')[:60000]
+
+
+def bulk_records(n, namelen, seed):
+    """The scanner input of a large site, by generator parameters: n hosts with long (valid) names."""
+    import random
+    r = random.Random(seed)
+    out = []
+    for k in range(n):
+        name = 'h%05d-' % k + ''.join(r.choice(GOODCH) for _ in range(max(1, namelen - 7)))
+        out.append((name, '10.%d.%d.%d' % (k // 65536 % 256, k // 256 % 256, k % 256)))
+    return out
+
+
+def bulk_case(ctx, params, tmpdir, level=None):
+    """SCALE: several hundred KiB of scanner output pending at once on the hostwatch socket; the real relay
+    reads it with whatever size it asks recv() for (the fake socket honours the size); every record must
+    reach sethostip exactly once, in order.  The helper stage is left out (one rewrite per record)."""
+    log = Log('bulk')
+    case = dict(kind='bulk', params=params, level=next_level(ctx, level))
+    recs = bulk_records(params['n'], params['namelen'], params['seed'])
+    sc = Scanner('utf-8', tmpdir)
+    try:
+        stream = sc.run([('found', n, i) for n, i in recs])
+    finally:
+        sc.close()
+    if sc.error:
+        ctx.violation('C19:scanner:exception:' + sc.error, case=case, expected='the scanner survives', observed=sc.error)
+        return log
+    emitted = complete_records(stream)
+    ctx.hist('bulk:bytes-pending', len(stream))
+    srv = Server()
+    cl = Client()
+    log.ins.append('hw-reset')
+    log.outs.append('ok')
+    srv.sock.next = stream
+    host_bytes = []
+    payloads = []
+    reads = 0
+    while srv.sock.next:
+        reads += 1
+        srv.sock.last = b''
+        tag, lo, payload, wire = srv.read(None)
+        log.ins.append('ready ' + hexb(srv.sock.last))
+        if tag != 'sent':
+            log.outs.append(tag)
+            ctx.violation('C19:server:' + tag, case=dict(case, read_no=reads, read_size=len(srv.sock.last)),
+                          expected='hostwatch_ready forwards every read', observed=tag,
+                          note='%d bytes of scanner output were pending; read number %d returned %d bytes'
+                               % (len(stream), reads, len(srv.sock.last)))
+            return log
+        log.outs.append('sent leftover=%s payload=%s' % (hexb(lo), 'none' if payload is None else hexb(payload)))
+        if payload is not None:
+            payloads.append(payload)
+            t, written = cl.deliver(wire)
+            log.ins.append('hostlist ' + hexb(payload))
+            log.outs.append('ok ' + hexb(written) if t == 'ok' else t)
+            if t != 'ok':
+                ctx.violation('C19:client:session-ended-by-host-entry', case=case, expected='ok', observed=t)
+                return log
+            host_bytes.append(written)
+    ctx.hist('bulk:reads', reads)
+    delivered = []
+    for line in b''.join(host_bytes).split(b'\n')[:-1]:
+        n, _s, i = line[5:].partition(b',')
+        delivered.append((n, i))
+    if b''.join(payloads) != stream or delivered != emitted:
+        k = next((j for j, (a, b2) in enumerate(zip(delivered, emitted)) if a != b2), min(len(delivered), len(emitted)))
+        ctx.violation('C19:transit:record-lost-duplicated-or-altered', case=case,
+                      expected=dict(records=len(emitted)), observed=dict(records=len(delivered), first_difference_at=k))
+    log.nontrivial = True
+    return log
 
 
 def stream_case(ctx, stream, chunks, level=None):
@@ -1028,6 +1176,12 @@ def gen_cases(ctx, tmpdir):
         case = dict(kind='pipeline', ops=[('found', 'alpha.example', '10.1.1.1'), ('found', 'beta', '10.1.1.2')],
                     encoding='utf-8', chunks=None, ports=[p6, p4], hosts_file=hosts_with_instances(rng, port))
         logs.append(pipeline_case(ctx, case, tmpdir))
+    # the pre-existing hosts file in every encoding x the helper's locale
+    for hf in ENCODED_HOSTS:
+        for loc in LOCALES:
+            case = dict(kind='pipeline', ops=[('found', 'alpha.example', '10.1.1.1'), ('found', 'beta', '10.1.1.2')],
+                        encoding='utf-8', chunks=None, ports=[0, 12300], hosts_file=hf, locale=loc)
+            logs.append(pipeline_case(ctx, case, tmpdir))
     # histories of records for one name (the last announced value must be in force) and scanner sessions
     A, B = '10.0.0.1', '10.0.0.2'
     for ops in [[('found', 'h', A), ('found', 'h', B), ('found', 'h', A)],
@@ -1072,6 +1226,9 @@ def gen_cases(ctx, tmpdir):
             case['hosts_file'] = rng.choice(HOSTS_FILES)
         else:
             case['hosts_file'] = hosts_with_instances(rng, case['ports'][0] or case['ports'][1], n=rng.choice([2, 4, 20]))
+        if rng.random() < 0.2:
+            case['hosts_file'] = rng.choice(ENCODED_HOSTS)
+        case['locale'] = rng.choice(LOCALES)
         logs.append(pipeline_case(ctx, case, tmpdir))
     for p in [b'h,10.0.0.1\nh,10.0.0.2\nh,10.0.0.1\n', b'h,10.0.0.1 g,10.0.0.1 h,10.0.0.2 g,10.0.0.2 h,10.0.0.1 h,10.0.0.1\n',
               b'x\n', b'foo,1\n', b',\n', b'a,b,c\n', b'', b'\n', b'ok,1.2.3.4', b'name,1.2.3.4\nname,5.6.7.8\n']:
@@ -1079,7 +1236,9 @@ def gen_cases(ctx, tmpdir):
     for _ in range(ctx.scale(180, 4000)):
         pp = tuple(rng.choice(PORT_PAIRS + [[1024, 1025]]))
         hf = rng.choice(HOSTS_FILES) if rng.random() < 0.6 else hosts_with_instances(rng, pp[0] or pp[1], n=rng.choice([2, 4, 20]))
-        logs.append(payload_case(ctx, rand_payload(rng), tmpdir, ports=pp, hosts_file=hf))
+        if rng.random() < 0.15:
+            hf = rng.choice(ENCODED_HOSTS)
+        logs.append(payload_case(ctx, rand_payload(rng), tmpdir, ports=pp, hosts_file=hf, locale=rng.choice(LOCALES)))
     for _ in range(ctx.scale(120, 2000)):
         n = rng.choice([0, 1, 3, 8])
         lines = [bytes(rng.choice(b'ab,.1 \t\x00\xff') for _ in range(rng.choice([0, 1, 5, 40]))) for _ in range(n)]
@@ -1090,6 +1249,10 @@ def gen_cases(ctx, tmpdir):
         if chunks:
             logs.append(stream_case(ctx, stream, chunks))
     logs.append(stream_case(ctx, b'', [b'']))
+    # scale: hundreds of KiB pending at once (few cases; stored by generator parameters)
+    for k in range(ctx.scale(1, 4)):
+        logs.append(bulk_case(ctx, dict(n=rng.choice([2500, 3000]), namelen=rng.choice([100, 110, 120]),
+                                        seed=rng.randrange(1 << 16)), tmpdir))
     return logs
 
 
@@ -1144,9 +1307,13 @@ def replay(ctx, rep):
     c2 = common.Ctx('C19', 'quick', 0)
     tmpdir = tempfile.mkdtemp(prefix='verif_c19_')
     try:
-        if case.get('kind') == 'payload':
+        if isinstance(case.get('hosts_file'), dict):
+            case['hosts_file'] = bytes.fromhex(case['hosts_file']['hex'])
+        if case.get('kind') == 'bulk':
+            bulk_case(c2, case['params'], tmpdir, level=case.get('level', 0))
+        elif case.get('kind') == 'payload':
             payload_case(c2, common.unhex(case['payload']), tmpdir, tuple(case['ports']), case['hosts_file'],
-                         level=case.get('level', 0))
+                         level=case.get('level', 0), locale=case.get('locale', 'utf-8'))
         elif case.get('kind') == 'stream':
             chunks = [common.unhex(c) for c in case['chunks']]
             stream_case(c2, b''.join(chunks), chunks, level=case.get('level', 0))
